@@ -81,6 +81,10 @@ func genReduceCase(r *rand.Rand) reduceCase {
 	for i := 0; i < ngroup; i++ {
 		c.Cols = append(c.Cols, genColumn(r, c.Class == "mixed" && (i == 0 || r.Intn(2) == 0), c.Class == "D12"))
 	}
+	if r.Intn(5) == 0 {
+		c.Class = "near"
+		c.Cols[r.Intn(len(c.Cols))] = []string{[]string{"floatN", "floatN", "digits", "digitsT", "str"}[r.Intn(5)]}
+	}
 	c.ValKind = []string{"ints", "ints", "floats", "intfloat", "any"}[r.Intn(5)]
 	n := r.Intn(13)
 	if r.Intn(8) == 0 && c.Class == "D12" && c.ValKind == "ints" {
@@ -204,7 +208,14 @@ func genE2E11(r *rand.Rand) e2eCase {
 		class = "mixed"
 	}
 	vK := genObjKinds(r, class)
-	shape := r.Intn(7)
+	if r.Intn(5) == 0 {
+		class = "near"
+		vK = []string{[]string{"floatN", "floatN", "digits", "digitsT"}[r.Intn(4)]}
+	}
+	shape := r.Intn(8)
+	if class == "near" {
+		shape = []int{1, 2, 6, 7, 7}[r.Intn(5)] // shapes that group by the generated object
+	}
 	wK := []string{[]string{"intD", "int", "floatD", "float"}[r.Intn(4)]}
 	if shape == 1 || shape == 2 {
 		wK = []string{[]string{"intD", "int"}[r.Intn(2)]}
@@ -268,9 +279,14 @@ func genE2E11(r *rand.Rand) e2eCase {
 		where, baseSel = `{?s "v"@[] ?o}`, []string{"?o", "?s"}
 		ex.Projs = []jproj{{Bind: "?o"}}
 		ex.GroupBy = []string{"?o"}
+	case 7:
+		c.Shape = "by-object-alias" // the grouping values reach GROUP BY through an alias
+		where, baseSel = `{?s "v"@[] ?o}`, []string{"?o", "?s"}
+		ex.Projs = []jproj{{Bind: "?o", Alias: "?val"}}
+		ex.GroupBy = []string{"?val"}
 	}
 	aggOn := "?x"
-	if c.Shape == "by-object-1" {
+	if c.Shape == "by-object-1" || c.Shape == "by-object-alias" {
 		aggOn = "?s"
 	}
 	na := 1 + r.Intn(3)
